@@ -34,6 +34,19 @@ import threading
 
 import nfc.clf
 import nfc.dep
+import nfc.llcp.pdu
+import nfc.llcp.llc
+
+SENSF_RES = bytes.fromhex('0101fe6162636465660000000000000000ffff')
+
+
+class FakeOs(object):
+    """deterministic replacement of os.urandom inside nfc.dep (NFCID3 values)"""
+
+    @staticmethod
+    def urandom(n):
+        return bytes((0xA0 + 7 * i + n) & 0xFF for i in range(n))
+
 
 GUARD = 20.0            # real seconds before a blocked rendezvous is declared a simulator deadlock
 
@@ -89,6 +102,16 @@ class IniClf(object):
         self.air = air
 
     def sense(self, *targets, **options):
+        """discovery as Initiator.activate(target=None) uses it: the peer is found in passive mode at the
+        technology the air was created with (106A or 212F); active communication mode is not offered"""
+        for t in targets:
+            if getattr(t, 'atr_req', None) is not None:
+                raise nfc.clf.UnsupportedTargetError("sim: no active communication mode")
+            if t.brty == self.air.brty0 == '106A':
+                return nfc.clf.RemoteTarget('106A', sens_res=bytearray(b'\x01\x01'),
+                                            sdd_res=bytearray(b'\x08\x01\x02\x03'), sel_res=bytearray(b'\x40'))
+            if t.brty == self.air.brty0 == '212F':
+                return nfc.clf.RemoteTarget('212F', sensf_res=bytearray(SENSF_RES))
         return None
 
     def exchange(self, data, timeout):
@@ -110,7 +133,7 @@ class IniClf(object):
             raise nfc.clf.TimeoutError("sim: no response")
         rsp = item[1]
         air.log.append({'dir': 'T', 'data': bytes(rsp), 'fate': fs, 'round': air.round,
-                        'brty_tx': air.brty_t(), 'brty_rx': air.brty_i()})
+                        'brty_tx': item[2], 'brty_rx': air.brty_i()})
         if fs == 'L':
             air.clock.now += timeout
             raise nfc.clf.TimeoutError("sim: response lost")
@@ -129,10 +152,10 @@ class TgtClf(object):
         air.brty_t = lambda: self.brty
 
     # -- raw half-duplex primitive ------------------------------------------------------
-    def _xfer(self, data, wait):
+    def _xfer(self, data, wait, brty=None):
         air = self.air
         if self.owes:
-            air.q_i.put(('frame', bytes(data)) if data else ('silent',))
+            air.q_i.put(('frame', bytes(data), brty or self.brty) if data else ('silent',))
             self.owes = False
         elif data:
             raise SimDeadlock("target transmits without a pending request")
@@ -239,9 +262,9 @@ class TgtClf(object):
                         psl_req = data[:]
                         psl_res = b"\xD5\x05" + bytes(data[2:3])
                         frame = (b"\xF0" if brty == "106A" else b"") + bytes([len(psl_res) + 1]) + psl_res
-                        self._xfer(frame, False)
-                        brty = ('106A', '212F', '424F')[data[3] & 7]
-                        self.brty = brty
+                        old, brty = brty, ('106A', '212F', '424F')[data[3] & 7]
+                        self.brty = brty        # (set before the rendezvous so that the log is race free)
+                        self._xfer(frame, False, brty=old)
                     data = recv(None)
                 else:
                     data = recv(None)
@@ -264,8 +287,9 @@ class Link(object):
 
     def run(self, ini_app, tgt_app):
         """ini_app(link) runs here, tgt_app(link) in the second thread; returns (ini result, tgt result)"""
-        saved = nfc.dep.time
+        saved, saved_os = nfc.dep.time, nfc.dep.os
         nfc.dep.time = self.air.clock
+        nfc.dep.os = FakeOs
         box = {}
 
         def tmain():
@@ -284,6 +308,7 @@ class Link(object):
             self.air.close()
             th.join(GUARD)
             nfc.dep.time = saved
+            nfc.dep.os = saved_os
         if th.is_alive():
             raise SimDeadlock("target thread did not end")
         if 't_exc' in box:
@@ -384,4 +409,160 @@ def conversation(cfg, payloads, responses, script, rtox=None, release=True, ini_
     obs['tgt_miu'] = link.tgt.miu
     obs['ini_pni'] = link.ini.pni
     obs['tgt_pni'] = link.tgt.pni
+    return obs
+
+
+def p2p(brty0, dep_i, dep_t, llc_a, llc_b, payload_sizes=()):
+    """Two real stacks activated against each other: llc_a.activate(mac=Initiator, **dep_i) in this thread,
+    llc_b.activate(mac=Target, **dep_t) in the second one, then one NFC-DEP exchange per entry of
+    payload_sizes (initiator payload size, target payload size).  Returns the observation dict."""
+    link = Link(brty0)
+    obs = {'ini': [], 'tgt': []}
+
+    def ini_app(link):
+        try:
+            obs['a_ok'] = 'ok %d' % bool(llc_a.activate(mac=link.ini, **dep_i))
+        except Exception as e:  # noqa
+            obs['a_ok'] = ('err ' if isinstance(e, (nfc.clf.Error, nfc.llcp.pdu.Error)) else 'crash ') + type(e).__name__
+            return
+        if obs['a_ok'] != 'ok 1':
+            return
+        obs['n_act'] = len(link.air.log)
+        link.ini.rwt_real = link.ini.rwt
+        for (n, _m) in payload_sizes:
+            try:
+                r = link.ini.exchange(bytearray(n * b'\x5a'), 1.0)
+                obs['ini'].append('ok %d' % len(r))
+            except Exception as e:  # noqa
+                obs['ini'].append(classify(e))
+                break
+        try:
+            link.ini.deactivate(release=True)
+        except Exception as e:  # noqa
+            obs['ini_deactivate'] = classify(e)
+
+    def tgt_app(link):
+        try:
+            obs['b_ok'] = 'ok %d' % bool(llc_b.activate(mac=link.tgt, **dep_t))
+        except Exception as e:  # noqa
+            obs['b_ok'] = ('err ' if isinstance(e, (nfc.clf.Error, nfc.llcp.pdu.Error)) else 'crash ') + type(e).__name__
+            return
+        if obs['b_ok'] != 'ok 1':
+            return
+        send = None
+        for (_n, m) in list(payload_sizes) + [(0, 0)]:
+            try:
+                r = link.tgt.exchange(send, 1000.0)
+            except Exception as e:  # noqa
+                obs['tgt'].append(classify(e))
+                return
+            if r is None:
+                obs['tgt'].append('none')
+                return
+            obs['tgt'].append('ok %d' % len(r))
+            send = bytearray(m * b'\xa5')
+
+    link.run(ini_app, tgt_app)
+    obs['frames'] = [(e['dir'], e['data'].hex(), e['fate'], e['brty_tx'], e['brty_rx'], e['round']) for e in link.air.log]
+    obs['link'] = link
+    return obs
+
+
+class SimFrontend(nfc.clf.ContactlessFrontend):
+    """a real ContactlessFrontend whose radio operations are the simulated ones (no device driver):
+    used to drive connect(llcp=...) / _llcp_connect end to end"""
+
+    def __init__(self, simclf):
+        nfc.clf.ContactlessFrontend.__init__(self)
+        self.device = simclf            # connect() only tests it for None
+        self.sim = simclf
+
+    def sense(self, *targets, **options):
+        return self.sim.sense(*targets, **options)
+
+    def listen(self, target, timeout):
+        return self.sim.listen(target, timeout)
+
+    def exchange(self, send_data, timeout):
+        return self.sim.exchange(send_data, timeout)
+
+
+def p2p_connect(brty0, opts_a, opts_b, setup_a=None, setup_b=None, payload_sizes=()):
+    """As p2p(), but through ContactlessFrontend.connect(llcp=opts): opts_a must contain role='initiator',
+    opts_b role='target'.  setup_x(llc) is called from 'on-startup'.  Returns the observation dict with the two
+    LogicalLinkController objects."""
+    link = Link(brty0)
+    fa, fb = SimFrontend(link.iclf), SimFrontend(link.tclf)
+    obs = {'ini': [], 'tgt': []}
+    link.air.brty_i = lambda: (obs['llc_a'].mac.target.brty if obs.get('llc_a') is not None and obs['llc_a'].mac is not None else '?')
+
+    def startup(setup):
+        def f(llc):
+            if setup:
+                setup(llc)
+            return llc
+        return f
+
+    def ini_app(link):
+        o = dict(opts_a)
+        o['on-startup'] = startup(setup_a)
+        o['on-connect'] = lambda llc: False
+        try:
+            r = fa.connect(llcp=o)
+        except Exception as e:  # noqa
+            obs['a_ok'] = ('err ' if isinstance(e, (nfc.clf.Error, nfc.llcp.pdu.Error)) else 'crash ') + type(e).__name__
+            return
+        obs['a_ok'] = 'ok %d' % isinstance(r, nfc.llcp.llc.LogicalLinkController)
+        if obs['a_ok'] != 'ok 1':
+            return
+        obs['llc_a'] = r
+        obs['n_act'] = len(link.air.log)
+        for (n, _m) in payload_sizes:
+            try:
+                x = r.mac.exchange(bytearray(n * b'\x5a'), 1.0)
+                obs['ini'].append('ok %d' % len(x))
+            except Exception as e:  # noqa
+                obs['ini'].append(classify(e))
+                break
+        try:
+            r.mac.deactivate(release=True)
+        except Exception as e:  # noqa
+            obs['ini_deactivate'] = classify(e)
+
+    def tgt_app(link):
+        o = dict(opts_b)
+        o['on-startup'] = startup(setup_b)
+        o['on-connect'] = lambda llc: False
+        o['terminate'] = lambda: link.air.t_gone or getattr(link.air, 'stop', False)
+        try:
+            r = fb.connect(llcp=o, terminate=lambda: getattr(link.air, 'stop', False))
+        except Exception as e:  # noqa
+            obs['b_ok'] = ('err ' if isinstance(e, (nfc.clf.Error, nfc.llcp.pdu.Error)) else 'crash ') + type(e).__name__
+            return
+        obs['b_ok'] = 'ok %d' % isinstance(r, nfc.llcp.llc.LogicalLinkController)
+        if obs['b_ok'] != 'ok 1':
+            return
+        obs['llc_b'] = r
+        send = None
+        for (_n, m) in list(payload_sizes) + [(0, 0)]:
+            try:
+                x = r.mac.exchange(send, 1000.0)
+            except Exception as e:  # noqa
+                obs['tgt'].append(classify(e))
+                return
+            if x is None:
+                obs['tgt'].append('none')
+                return
+            obs['tgt'].append('ok %d' % len(x))
+            send = bytearray(m * b'\xa5')
+
+    # connect() loops until terminate(): after the link is closed the target side's listen returns None at once
+    orig_close = link.air.close
+
+    def close():
+        link.air.stop = True
+        orig_close()
+    link.air.close = close
+    link.run(ini_app, tgt_app)
+    obs['frames'] = [(e['dir'], e['data'].hex(), e['fate'], e['brty_tx'], e['brty_rx'], e['round']) for e in link.air.log]
     return obs
